@@ -305,6 +305,29 @@ def decodeChunk (p : Params) (rc : Rec) (bytes : List UInt8) : Rec :=
   | .error (_, es) => { rc with st := .skipRecord, emits := rc.emits ++ es }
   | .ok (d', es) => { rc with dec := d', emits := rc.emits ++ es }
 
+/-- The `match` on the chunk `pump` returned, and the judge's verdict. -/
+def onChunk (p : Params) (judge : Judge) (s1 : RdState) (r : Reader) (rc : Rec) : Chunk → StepOut
+  | .sentinel off =>
+    if off < 2 then .done .panic s1 r                              -- assert!(offset >= 2)
+    else
+      let s2 := { s1 with lastSentinel := off - 2 }
+      match rc.st with
+      | .skipSentinel => consult judge s2 r { rc with start := off, stop := off }
+      | _ => afterBreak s2 r rc
+  | .eof =>
+    if rc.start = rc.stop then .done .none s1 r
+    else afterBreak s1 r rc
+  | .data off bytes =>
+    if bytes.isEmpty then .done .panic s1 r                        -- assert!(!slice.is_empty())
+    else
+      let rc1 : Rec :=
+        match rc.st with
+        | .skipSentinel =>
+          { rc with start := off - bytes.length, stop := off - bytes.length, st := .decodeRecord }
+        | _ => rc
+      let rc2 : Rec := if rc1.st = .decodeRecord then decodeChunk p rc1 bytes else rc1
+      consult judge s1 r { rc2 with stop := off }
+
 /-- One iteration of the inner `loop`. -/
 def step (clamp : Nat) (t : Tuning) (p : Params) (judge : Judge) (block : Nat)
     (s : RdState) (r : Reader) (rc : Rec) : StepOut :=
@@ -316,26 +339,7 @@ def step (clamp : Nat) (t : Tuning) (p : Params) (judge : Judge) (block : Nat)
     match o.res with
     | .ioerr k => .done (.ioerr k) s1 o.reader                     -- `?`
     | .panic => .done .panic s1 o.reader
-    | .ok (.sentinel off) =>
-      if off < 2 then .done .panic s1 o.reader                     -- assert!(offset >= 2)
-      else
-        let s2 := { s1 with lastSentinel := off - 2 }
-        match rc.st with
-        | .skipSentinel => consult judge s2 o.reader { rc with start := off, stop := off }
-        | _ => afterBreak s2 o.reader rc
-    | .ok .eof =>
-      if rc.start = rc.stop then .done .none s1 o.reader
-      else afterBreak s1 o.reader rc
-    | .ok (.data off bytes) =>
-      if bytes.isEmpty then .done .panic s1 o.reader               -- assert!(!slice.is_empty())
-      else
-        let rc1 : Rec :=
-          match rc.st with
-          | .skipSentinel =>
-            { rc with start := off - bytes.length, stop := off - bytes.length, st := .decodeRecord }
-          | _ => rc
-        let rc2 : Rec := if rc1.st = .decodeRecord then decodeChunk p rc1 bytes else rc1
-        consult judge s1 o.reader { rc2 with stop := off }
+    | .ok ch => onChunk p judge s1 o.reader rc ch
 
 /-- The two nested loops, flattened: one `step` per `pump`. -/
 def run (clamp : Nat) (t : Tuning) (p : Params) (judge : Judge) (block : Nat) :
@@ -349,7 +353,7 @@ def run (clamp : Nat) (t : Tuning) (p : Params) (judge : Judge) (block : Nat) :
 /-- Enough fuel for any script: every step that does not end the call consumes
 a stream byte or a scripted answer, except at most two at the very end. -/
 def runFuel (s : RdState) (r : Reader) : Nat :=
-  s.chunker.buf.length + r.src.length + r.script.length + 3
+  2 * (s.chunker.buf.length + r.src.length) + r.script.length + 3
 
 /-- `next_record_bytes(reader, judge, io_block_size)`. -/
 def next (clamp : Nat) (t : Tuning) (p : Params) (judge : Judge) (block : Option Nat)
